@@ -797,3 +797,58 @@ def defaults(rep, split=False):
                 rep.ok('G20.a', key, 'every default literal of Default::default() is also used by %s for an absent field' % which, b.loc())
             else:
                 rep.bad('G20.a', key, b.loc(), '%s::%s does not fill absent fields with the values Default::default() uses: %s' % (ti.label, which, list(missing)[:5]))
+
+
+# ------------------------------------------------------------------------------------------------ C09 (generated): loop progress
+CONSUME = re.compile(r'^(read_[a-z0-9_]+|decode|decode_async|skip|skip_till_depth|get_bytes|advance|merge|merge_field|merge_repeated|decode_key|decode_varint|skip_field|next)$')
+
+
+def natural_loops(b):
+    succ, pred, reach = b.cfg
+    loops = []
+    for u in reach:
+        for v in succ[u]:
+            if v in reach and b.dominates(v, u):
+                # back edge u -> v
+                body = {v, u}
+                st = [u]
+                while st:
+                    x = st.pop()
+                    if x == v:
+                        continue
+                    for p in pred[x]:
+                        if p in reach and p not in body:
+                            body.add(p)
+                            st.append(p)
+                loops.append((v, body))
+    return loops
+
+
+def loops_consume(rep, rule, split=False):
+    """every loop of a generated decoder contains a call that consumes input (a wire-supplied count can then only drive
+    as many iterations as there are bytes)"""
+    prog, g, files = load(split)
+    n = 0
+    bad = {}
+    for b in prog.bodies.values():
+        if b.crate != 'vgen' or 'thrift::Message>::decode' not in b.key:
+            continue
+        for head, body in natural_loops(b):
+            if any(b.bbs[bi]['t']['k'] == 'yield' for bi in body) and len(body) <= 12:
+                continue    # the poll loop of an `.await`
+            n += 1
+            names = set()
+            for bi in body:
+                t = b.bbs[bi]['t']
+                if t['k'] == 'call':
+                    f = t['f'].get('c', {}).get('fn', {})
+                    names.add(f.get('name'))
+            if not any(CONSUME.match(x or '') for x in names):
+                kind = 'decode_async' if 'decode_async' in b.key else 'decode'
+                bad.setdefault(kind, []).append((b.key, sorted(x for x in names if x)[:6]))
+    for kind, lst in sorted(bad.items()):
+        rep.bad(rule, '%s|generated:%s|loop without a consuming call' % (rule, kind), '', 'generated %s contains a loop that neither reads nor skips input (%d loops, e.g. %s calling only %s): a wire-supplied count drives it without progress' % (kind, len(lst), lst[0][0][:90], lst[0][1]))
+    if not bad:
+        rep.ok(rule, '%s|generated|loops consume' % rule, 'all %d loops of the generated decoders contain a read/decode/skip call' % n)
+    if n < 400:
+        rep.anchor_missing(rule, 'loops in generated decoders (found %d)' % n)
